@@ -507,7 +507,8 @@ func strEqual(x, y Str) string {
 		x, y = y, x
 	}
 	p := "(streq " + a + " " + b + ")"
-	return "(and " + p + " (= " + x.Len + " " + y.Len + ") (=> (> " + x.Len + " 0) (= (select " + x.Base + " " + x.Off + ") (select " + y.Base + " " + y.Off + "))))"
+	same := "(and (= " + x.Base + " " + y.Base + ") (= " + x.Off + " " + y.Off + ") (= " + x.Len + " " + y.Len + "))"
+	return "(or " + same + " (and " + p + " (= " + x.Len + " " + y.Len + ") (=> (> " + x.Len + " 0) (= (select " + x.Base + " " + x.Off + ") (select " + y.Base + " " + y.Off + ")))))"
 }
 
 // iteVal merges two values of identical shape.
